@@ -157,6 +157,13 @@ def gen_tree(rng, max_pus=20):
             mo.attrs["name"] = "misc%d" % j
             h.x.append(mo)
 
+    # Group levels with dont_merge on none / all / a random subset of the Groups
+    dm_mode = rng.choice(["none"] * 6 + ["all"] + ["mixed"] * 3)
+    if dm_mode != "none":
+        for g in all_nodes(root, []):
+            if g.ty == "Group" and (dm_mode == "all" or rng.random() < 0.5):
+                g.attrs["dont_merge"] = "1"
+
     # sets
     def fill_cs(o):
         if o.ty == "PU":
@@ -367,13 +374,69 @@ def misc_annotations(rng, depth_guess=4):
     return lines
 
 
+def gen_group_history(rng):
+    """Groups inserted by the application (hwloc_topology_insert_group_object) over sibling objects, dont_merge on a
+    random subset, insertion order varied; then restrictions that leave every Group with a single child, so that the
+    Group level becomes structurally redundant.  Returns (config lines, annotation lines, step lines, description)."""
+    npack = rng.choice([1, 1, 2])
+    per = rng.choice([4, 4, 6, 8])              # members per package
+    npu = rng.choice([1, 1, 2])
+    mtype, mname = rng.choice([(3, "core"), (3, "core"), (6, "l2"), (2, "die")])
+    desc = ("pack:%d " % npack) + "%s:%d pu:%d" % (mname, per, npu)
+    gsize = rng.choice([2, 2, 3]) if per >= 6 else 2
+    groups = []                                  # (member indexes)
+    for p in range(npack):
+        base = p * per
+        k = 0
+        while k + gsize <= per:
+            if rng.random() < 0.9:
+                groups.append(list(range(base + k, base + k + gsize)))
+            k += gsize
+    mode = rng.choice(["mixed", "mixed", "mixed", "none", "all", "first", "last"])
+    dms = []
+    for j in range(len(groups)):
+        if mode == "mixed":
+            dms.append(1 if rng.random() < 0.5 else 0)
+        elif mode == "first":
+            dms.append(1 if j == 0 else 0)
+        elif mode == "last":
+            dms.append(1 if j == len(groups) - 1 else 0)
+        else:
+            dms.append(1 if mode == "all" else 0)
+    order = list(range(len(groups)))
+    if rng.random() < 0.5:
+        rng.shuffle(order)
+    ann = ["group %d %d %s" % (dms[j], mtype, " ".join(map(str, groups[j]))) for j in order]
+    if rng.random() < 0.4:
+        ann.append("misc 2 %d onGroup" % rng.randrange(max(1, len(groups))))
+    total = npack * per * npu
+    # one member per Group survives (its first PU, or all its PUs)
+    keep = []
+    for g in groups:
+        mbr = rng.choice(g)
+        keep += [mbr * npu] if rng.random() < 0.6 else [mbr * npu + u for u in range(npu)]
+    grouped = set(m for g in groups for m in g)
+    for mbr in range(npack * per):
+        if mbr not in grouped and rng.random() < 0.3:
+            keep.append(mbr * npu)
+    steps = []
+    if rng.random() < 0.3:
+        # a first, milder restriction
+        first = sorted(set(keep + rng.sample(range(total), rng.randint(1, total))))
+        steps.append("restrict %s %d" % (set_text(first), rng.choice([0, 0, 2, 4, 6])))
+    steps.append("restrict %s %d" % (set_text(sorted(set(keep)) or [0]), rng.choice([0, 0, 0, 1, 2, 3, 6, 7])))
+    if rng.random() < 0.3:
+        steps += [s for _, s in gen_steps(rng, sorted(set(keep)) or [0], [0], nsteps=1)]
+    return ["filter 19 0", "src synthetic " + desc], ann, steps, "%s|%s|dm=%s" % (desc, mode, "".join(map(str, dms)))
+
+
 def script_of(cfg, ann, steps):
     return ["new"] + cfg + ["load"] + ann + steps + ["destroy"]
 
 
 def shrink(lines, still_fails):
     """Delta-debugging over the removable lines (annotations and restrict steps) of a script."""
-    fixed = lambda l: not (l.startswith("restrict ") or l.startswith("misc ") or l.startswith("ud "))
+    fixed = lambda l: not (l.startswith("restrict ") or l.startswith("misc ") or l.startswith("ud ") or l.startswith("group "))
     cur = list(lines)
     changed = True
     while changed:
